@@ -17,6 +17,8 @@ def rows(prefix):
             if prefix:
                 if m.get('detected_at_first_run'):
                     rules += ' (first run)'
+                elif prefix == 'r7_':
+                    rules += ' (after round 7, §6.12)'
                 elif prefix == 'r6_':
                     rules += ' (after round 6, §6.11)'
                 elif prefix == 'r5_':
@@ -51,12 +53,12 @@ def stats(prefix):
 
 if __name__ == '__main__':
     s = open('/verif/DESIGN.md').read()
-    for prefix, first in (('', '| C02a |'), ('r2_', '| r2_C02a |'), ('r3_', '| r3_C02a |'), ('r4_', '| r4_C02a |'), ('r5_', '| r5_C02a |'), ('r6_', '| r6_C02a |')):
+    for prefix, first in (('', '| C02a |'), ('r2_', '| r2_C02a |'), ('r3_', '| r3_C02a |'), ('r4_', '| r4_C02a |'), ('r5_', '| r5_C02a |'), ('r6_', '| r6_C02a |'), ('r7_', '| r7_C02a |')):
         i = s.index('| seed | change | detected by rule(s) | checks that fail |', s.rindex('\n## 6', 0, s.index(first)))
         # the table that contains `first`
         i = s.rindex('| seed | change |', 0, s.index(first))
         j = s.index('\n\n', i)
         s = s[:i] + table(prefix).rstrip('\n') + s[j:]
     open('/verif/DESIGN.md', 'w').write(s)
-    for prefix in ('', 'r2_', 'r3_', 'r4_', 'r5_', 'r6_'):
+    for prefix in ('', 'r2_', 'r3_', 'r4_', 'r5_', 'r6_', 'r7_'):
         print(prefix or 'r1', stats(prefix))
